@@ -268,6 +268,35 @@ def anyof_pair_cases(rng, limit=None):
     return cases
 
 
+def anyof_optional_cases(rng, limit=None):
+    """AnyOf over TWO distinguishable non-None options and None (Optional[Union[A, B]]), None listed last / first /
+    in the middle, the field left optional, holding a value of either option: the value must be serialized by the
+    option it belongs to (not by whichever non-None option happens to be listed last)"""
+    vg = gen.ValGen(rng)
+    none = {"k": "noneF"}
+    pairs = [(a, b) for a in ANYOF_CATALOGUE for b in ANYOF_CATALOGUE
+             if a is not b and a["k"] != "noneF" and b["k"] != "noneF"
+             and distinguishable({"k": "anyOf", "fields": [a, b]})]
+    if limit is not None and len(pairs) > limit:
+        pairs = rng.sample(pairs, limit)
+    cases = []
+    for pi, (a, b) in enumerate(pairs):
+        for where in (2, 0, 1):
+            opts3 = [copy.deepcopy(a), copy.deepcopy(b)]
+            opts3.insert(where, dict(none))
+            cls = {"k": "struct", "name": f"AO{pi}_{where}", "required": ["g"], "addl": False,
+                   "fields": [["f", {"k": "anyOf", "fields": opts3}], ["g", {"k": "integer"}]]}
+            C.fix_accepts(cls)
+            for opt in (a, b):
+                v = vg.valid(opt)
+                if v is gen.NOVALUE or v is None:
+                    continue
+                kw = [["f", v], ["g", 1]]
+                cases.append({"suite": "serde", "mode": "roundtrip", "stream": "anyof-optional", "cls": cls, "kw": kw,
+                              "opts": {"keepUndefined": False, "ignoreInvalidAddl": False}, "re": gen.re_table(cls, kw)})
+    return cases
+
+
 def gen_cases(rng, tier, n_classes, lossy=0.2):
     cases = anyof_pair_cases(random.Random(str(rng.getstate()[1][0])))   # own stream: the main one is not shifted
     for ci in range(n_classes):
@@ -307,6 +336,60 @@ def gen_cases(rng, tier, n_classes, lossy=0.2):
         cases.append({"suite": "serde", "mode": "deser", "stream": "non-object", "cls": cls,
                       "doc": rng.choice([None, 1, "s", {"l": []}, {"l": [{"m": []}]}, True]),
                       "opts": rng.choice(opts_list), "re": []})
+    return cases
+
+
+# ------------------------------------------------------------------ size-bound documents (directed)
+
+SIZED_ITEMS = [{"k": "integer"}, {"k": "string"},
+               {"k": "struct", "name": "SzIt", "required": ["v"], "addl": False, "fields": [["v", {"k": "integer"}]]}]
+
+
+def _sized_kinds(item):
+    hashable = item["k"] != "struct"
+    out = [("array", lambda b: dict({"k": "seqOf", "item": copy.deepcopy(item)}, **b)),
+           ("deque", lambda b: dict({"k": "seqOf", "seq": "deque", "item": copy.deepcopy(item)}, **b)),
+           ("map", lambda b: dict({"k": "mapOf", "key": {"k": "string"}, "val": copy.deepcopy(item)}, **b)),
+           ("arraypos", lambda b: dict({"k": "seqPos", "items": [copy.deepcopy(item)], "addl": True}, **b)),
+           ("dequepos", lambda b: dict({"k": "seqPos", "seq": "deque", "items": [copy.deepcopy(item)], "addl": True}, **b))]
+    if hashable:
+        out.append(("set", lambda b: dict({"k": "setOf", "item": copy.deepcopy(item)}, **b)))
+    return out
+
+
+def size_bound_cases(rng):
+    """every sized collection kind x item kind x (minItems | maxItems | both) x placement (a class field, a field of
+    a nested class, inside an Array of structures, a Map value, under Optional), with well-typed documents whose
+    length is one below / at / one above each bound: the size rule must be decided by the Deserializer exactly as
+    the constructor decides it on the lifted document (neither truncation nor padding)"""
+    vg = gen.ValGen(rng)
+    cases = []
+    ci = 0
+    for item in SIZED_ITEMS:
+        for kname, mk in _sized_kinds(item):
+            for bounds in ({"minItems": 2}, {"maxItems": 2}, {"minItems": 1, "maxItems": 3}, {"maxItems": 0}):
+                coll = mk(bounds)
+                lens = sorted({max(0, bounds.get("minItems", 1) - 1), bounds.get("minItems", 1),
+                               bounds.get("maxItems", 2), bounds.get("maxItems", 2) + 1, bounds.get("maxItems", 2) + 2})
+                for place in ("field", "nested", "array-of-struct", "map-value", "optional"):
+                    ci += 1
+                    inner = {"k": "struct", "name": f"SzN{ci}", "required": ["c"], "addl": False, "fields": [["c", copy.deepcopy(coll)], ["t", {"k": "string"}]]}
+                    f = {"field": coll, "nested": inner, "array-of-struct": {"k": "seqOf", "item": inner},
+                         "map-value": {"k": "mapOf", "key": {"k": "string"}, "val": copy.deepcopy(coll)},
+                         "optional": {"k": "anyOf", "fields": [{"k": "noneF"}, copy.deepcopy(coll)]}}[place]
+                    cls = {"k": "struct", "name": f"Sz{ci}", "required": ["f"], "addl": False, "fields": [["f", f], ["g", {"k": "integer"}]]}
+                    C.fix_accepts(cls)
+                    for n in lens:
+                        v = vg.of_len(coll, n)
+                        if v is gen.NOVALUE:
+                            continue
+                        cd = to_doc(coll, v)
+                        fd = {"field": cd, "nested": {"m": [["c", cd], ["t", "x"]]},
+                              "array-of-struct": {"l": [{"m": [["c", cd]]}, {"m": [["c", cd], ["t", ""]]}]},
+                              "map-value": {"m": [["k", cd]]}, "optional": cd}[place]
+                        d = dedupe_doc({"m": [["f", fd], ["g", n]]})
+                        cases.append({"suite": "serde", "mode": "deser", "stream": "size-bound", "cls": cls, "doc": d,
+                                      "opts": {"keepUndefined": False, "ignoreInvalidAddl": True}, "re": gen.re_table(cls, d)})
     return cases
 
 
@@ -456,6 +539,11 @@ def tags(case, impl, model):
         if key in impl:
             out.append(f"{key}:" + ("ok" if "ok" in impl[key] else impl[key]["err"]))
     out.append("fragment:" + str(in_fragment(case["cls"])))
+    m = (model or {}).get("out") or {}
+    if "inFrag" in m:
+        out.append("proved-fragment(class_round_trip_partial | class_round_trip_extras_partial):" + str(bool(m["inFrag"] or m.get("inFragExtras"))))
+    if "exactDecl" in m:
+        out.append("proved-fragment(deserialize_exact_partial):" + str(m["exactDecl"]))
     out.append("model-scope:" + str(in_model_scope(case["cls"])))
     return out
 
